@@ -1,9 +1,84 @@
 import PraatModel.Proto
+import PraatModel.RunAudio
+import PraatModel.Extract
 
-/-! # driver operations for C17: interval-driven audio extraction (extension point of `Run.lean`) -/
+/-! # driver operations for C17: interval-driven audio extraction (extension point of `Run.lean`)
 
+Token syntax of this group (in addition to `RunAudio.lean`'s `num/den` times, `h…` bytes):
+* `<den>`       : the common denominator of the integer times of the line
+* pair list     : `<n> (s e)*` — integer numerators over `<den>`
+* generator     : `N` (no replaceFunc) | `sil` (`AudioGenerator.generateSilence`)
+* tg flag       : `off` | `all` | `only <name>`
+* name style    : `default` | `append` | `append_no_i` | `label`
+* value table   : `<n> (<time> <num/den>)*` — the exact value of each timestamp of the split tier
+-/
+
+namespace ExtractProto
+open Audio AudioProto Extract
+
+def pairs : P (List (Int × Int)) := do
+  let n ← P.nat
+  P.many n (do let s ← P.int; let e ← P.int; pure (s, e))
+
+def outMarked (ms : List Marked) : String :=
+  Out.join (toString ms.length :: ms.map fun m => s!"{m.s} {m.e} {if m.keep then "keep" else "delete"}")
+
+def outX {β} (f : β → String) : Except XErr β → String
+  | .ok v => "ok " ++ f v
+  | .error e => "err " ++ e.name
+
+def tgFlag : P TgFlag := do
+  match (← P.tok) with
+  | "off" => pure .off
+  | "all" => pure .all
+  | "only" => do let n ← P.str; pure (.only n)
+  | t => throw s!"bad tg flag {t}"
+
+def nameStyle : P NameStyle := do
+  match (← P.tok) with
+  | "default" => pure .default
+  | "append" => pure .append
+  | "append_no_i" => pure .appendNoI
+  | "label" => pure .label
+  | t => throw s!"bad name style {t}"
+
+def outWavFile (f : WavFile) : String := s!"{f.width} {f.rate} {outBytes f.data}"
+end ExtractProto
+
+open Audio AudioProto Extract ExtractProto in
 /-- `none` = not an operation of this group.  `α` is the number type of the run (`Float` or `Int`). -/
 def runOpExtract (α : Type) [LT α] [LE α] [DecidableLT α] [DecidableLE α] [BEq α] [Add α] [Sub α] [Tm α] [Proto α]
     (op : String) : Option (P String) :=
   match op with
+  | "x_marked" => some do
+    let start ← P.int; let stop ← P.int; let keep ← pairs; let del ← pairs
+    pure (Out.exc outMarked (computeKeepDelete start stop keep del))
+  | "x_times" => some do
+    let den ← P.nat; let wv ← wav; let dur ← P.int; let keep ← pairs; let del ← pairs
+    let g ← P.tok
+    let f : WavFile := ⟨wv.width, wv.rate, wv.frames⟩
+    let gen : Option (Int → List UInt8) := if g = "sil" then some (generateSilence den f.rate f.width) else none
+    let durBits := (Float.ofNat f.nframes / Float.ofNat f.rate).toBits.toNat
+    pure (outX (fun bs => s!"{durBits} {outBytes bs}") (readFramesAtTimes den f dur keep del gen))
+  | "x_silence" => some do
+    let den ← P.nat; let w ← P.nat; let r ← P.nat; let d ← P.int
+    pure ("ok " ++ outBytes (generateSilence den r w d))
+  | "x_sinecount" => some do
+    let den ← P.nat; let r ← P.nat; let d ← P.int
+    pure s!"ok {sineCount den r d}"
+  | "x_extract" => some do
+    let wv ← wav; let s ← qtime; let e ← qtime
+    pure (outExc outWavFile (extractSubwav ⟨wv.width, wv.rate, wv.frames⟩ s e))
+  | "x_split" => some do
+    let wv ← wav
+    let g ← P.tg (α := α); let tierName ← P.str; let stem ← P.str
+    let flag ← tgFlag; let style ← nameStyle; let noPartial ← P.bool; let silence ← P.opt P.str
+    let n ← P.nat
+    let table ← P.many n (do let k ← P.int; let q ← qtime; pure (k, q))
+    let toQ : α → QTime := fun x => ((table.find? (fun p => p.1 == Proto.toP x)).map (·.2)).getD ⟨0, 1⟩
+    let outOne (o : SplitOut α) : String :=
+      s!"{Out.time o.s} {Out.time o.e} {Out.str o.name} {outWavFile o.wav} " ++
+        (match o.tg with | some t => "T " ++ Out.tg t | none => "N")
+    pure (outX (fun outs => Out.join (toString outs.length :: outs.map outOne))
+      (splitAudioOnTier toQ ⟨wv.width, wv.rate, wv.frames⟩ g tierName stem flag style noPartial silence))
   | _ => none
